@@ -197,6 +197,52 @@ func krRot(r *rng, id string, n int) {
 	for i := range rings {
 		rings[i], _ = ml.NewKeyring(nil, old)
 	}
+	// one case in three: the rings belong to running nodes (configured with a secret key or with a
+	// keyring) and "can talk" is judged on real packets and streams as well
+	var nodes []*cnode
+	if r.chance(1, 3) {
+		secret := r.chance(1, 2)
+		comp := r.chance(1, 2)
+		for i := range rings {
+			nd, err := newCnode(ccfg{name: fmt.Sprintf("k%d", i), key: old, secretKey: secret, label: "lbl", verifyIn: true, verifyOut: true, compress: comp})
+			if err != nil || nd.kr == nil {
+				for _, x := range nodes {
+					x.m.Shutdown()
+				}
+				nodes = nil
+				break
+			}
+			nodes = append(nodes, nd)
+		}
+		for i, nd := range nodes {
+			rings[i] = nd.kr
+		}
+		defer func() {
+			for _, x := range nodes {
+				x.m.Shutdown()
+			}
+		}()
+	}
+	realTalk := func(s, d int) bool {
+		snd, rcv := nodes[s], nodes[d]
+		to := &ml.Node{Name: rcv.m.LocalNode().Name, Addr: []byte{10, 0, 0, 9}, Port: 7946, PMax: 5}
+		pm := []byte(fmt.Sprintf("pkt-%d-%d", s, d))
+		snd.tr.take()
+		snd.m.SendBestEffort(to, pm)
+		pk := snd.tr.take()
+		rcv.del.take()
+		if len(pk) != 1 || rcv.ingest(pk[0]) {
+			return false
+		}
+		if got := rcv.del.take(); len(got) != 1 || !bytes.Equal(got[0], pm) {
+			return false
+		}
+		sm := []byte(fmt.Sprintf("str-%d-%d", s, d))
+		data := captureStream(snd, func() { snd.m.SendReliable(to, sm) })
+		ml.VerifHandleConn(rcv.m, newFragConn(data, nil))
+		got := rcv.del.take()
+		return len(got) == 1 && bytes.Equal(got[0], sm)
+	}
 	shape := func(kr *ml.Keyring) string {
 		var sb strings.Builder
 		for _, k := range kr.GetKeys() {
@@ -286,11 +332,15 @@ func krRot(r *rng, id string, n int) {
 					ok = "0"
 					break
 				}
+				if nodes != nil && s != d && !realTalk(s, d) {
+					ok = "0"
+					break
+				}
 			}
 		}
 		talks = append(talks, ok)
 	}
-	emit("C17 rot id=%s n=%d old=%s new=%s steps=%s states=%s talk=%s", id, n, hx(old), hx(nw),
+	emit("C17 rot id=%s n=%d real=%d old=%s new=%s steps=%s states=%s talk=%s", id, n, len(nodes), hx(old), hx(nw),
 		strings.Join(steps, ","), strings.Join(states, ";"), strings.Join(talks, ","))
 }
 
